@@ -16,9 +16,10 @@ susp_t   == Sc(3, 7, "time", 2, <<"boom", "m">>, <<"resume">>, 1, 1)
 count_t  == Sc(3, 3, "count", 2, <<"m", "m", "m">>, <<"pause", "resume">>, 1, 0)
 Thorough == {time_t, ctl_t, susp_t, count_t}
 \* thorough tier, replayed: mechanisms combined, still small enough to dump the state graph
-Medium == {Sc(3, 6, "time", 2, <<"m", "m">>, <<"pause", "resume">>, 1, 0),
-           Sc(3, 6, "time", 2, <<"boom", "m">>, <<"resume">>, 0, 1),
-           Sc(3, 3, "count", 2, <<"m", "m", "m">>, <<"pause", "resume">>, 0, 0)}
+MedA == Sc(3, 5, "time", 2, <<"m", "m">>, <<"pause", "resume">>, 0, 0)
+MedB == Sc(3, 5, "time", 2, <<"boom">>, <<"resume">>, 0, 1)
+MedC == Sc(3, 2, "count", 2, <<"m", "m", "m">>, <<"pause", "resume">>, 0, 0)
+Medium == {MedA, MedB, MedC}
 \* the smallest scenarios that exhibit each defect of the code as it is
 StaleOnly == {Sc(3, 5, "time", 2, <<"m", "m">>, <<>>, 0, 0)}
 TimeOnly == {time_q}
